@@ -23,8 +23,23 @@ def sel_assume(*names):
     def f(v): return [c for n in names for c in (v[n] >= 0, v[n] <= 7)]
     return f
 
+EMPTY = {'null': 'null', 'bool': 'false', 'int': '0', 'string': '""', 'list': '[]', 'object': '{}', 'func': 'uf', 'builtin': 'print'}
+def chooser_empty(var, sel):
+    out = ['%s := null' % var]
+    for i, k in enumerate(KINDS):
+        if i == 0: continue
+        out.append(('if' if i == 1 else '} else if') + ' %s == %d {' % (sel, i)); out.append('    %s = %s' % (var, EMPTY[k]))
+    out.append('}')
+    return out
+
 def templates(tier, seed=0):
     ts = []
+    for op in BINOPS:
+        src = HEAD + chooser_empty('a', 'sl') + chooser_empty('b', 'sr') + ['print(a %s b)' % op]
+        ts.append({'name': 'bin-empty-' + NAMES[op], 'src': '\n'.join(src) + '\n', 'assume': sel_assume('h0', 'h1')})
+    for op in OPASSIGN:
+        src = HEAD + chooser_empty('a', 'sl') + chooser_empty('b', 'sr') + ['a %s= b' % op, 'print(a)']
+        ts.append({'name': 'opassign-empty-' + NAMES[op], 'src': '\n'.join(src) + '\n', 'assume': sel_assume('h0', 'h1')})
     for op in BINOPS:
         src = HEAD + chooser('a', 'sl', 10) + chooser('b', 'sr', 20) + ['print(a %s b)' % op]
         ts.append({'name': 'bin-' + NAMES[op], 'src': '\n'.join(src) + '\n', 'assume': sel_assume('h0', 'h1')})
@@ -58,6 +73,9 @@ def templates(tier, seed=0):
         'range-write': ['v[0:1] = [2]', 'print(v)'],
         'range-write-rhs': ['ys := [5, 6]', 'ys[0:1] = v', 'print(ys)'],
         'type-fn': ['print(v->type())'],
+        'while-cond-later': ['c := true', 'n := 0', 'while c {', '    n += 1', '    if n == 2 {', '        c = v', '    }', '    if n == 3 {', '        c = false', '    }', '}', 'print(n)'],
+        'elif-cond': ['if false {', '    print(0)', '} else if v {', '    print(1)', '}'],
+        'slot-second': ['print($"${"a"}${v}")'],
         'len-fn': ['print(v->len())'],
         'index-assign-key': ['o := {"s": 1}', 'o[v] = 2', 'print(o)'],
         'list-index-assign-idx': ['ys := [5, 6]', 'ys[v] = 2', 'print(ys)'],
